@@ -390,6 +390,9 @@ def flow_clauses(ctx, g, volume):
             for label, rho in (("harmless", good),
                                ("ineq-violation", u @ np.diag([1 + 1e-3, -1e-3]) @ u.conj().T),
                                ("ineq-subthreshold", u @ np.diag([1 + 1e-8, -1e-8]) @ u.conj().T),
+                               ("ineq-violation-20x", u @ np.diag([1 + 2e-4, -2e-4]) @ u.conj().T),
+                               ("ineq-inside-20x", u @ np.diag([1 + 5e-7, -5e-7]) @ u.conj().T),
+                               ("eq-violation-20x", good * (1 + 4e-4)),
                                ("eq-violation", good * (1 + 1e-3)),
                                ("eq-subthreshold", good * (1 + 1e-8))):
                 if para and label.startswith("eq"):
